@@ -11,6 +11,10 @@
   schedules over explicit bad facts for every region the tree has been in (stdio: two closers of a pending channel,
   unchecked receive, two `Cmd.Wait` sites; Streamable: `handleSSEResponse` not closing the body, the listening
   stream's asynchronous start ignoring Close — all repaired in /repo).
+  Handshake: `C08_close_takes_effect` (Close() runs whatever the client's state — fact `closeAny`, instance
+  `C08_close_unguarded`) with the witnesses `C08_close_skipped_witness`, `C08_close_during_handshake_witness`.
+  Server-issued requests: `C08_server_pending_released` (instance `C08_server_inserts_deferred`) with
+  `C08_server_pending_leak_witness`.
 -/
 import Mcp.Model.Calls
 import Mcp.Gen.CallFacts
@@ -416,6 +420,23 @@ theorem C08_pending_leak_witness :
         [.issue 0, .ctxDone 0, .complete 0 .ctx] = some s ∧ (s.calls 0).returned = some .err ∧ (s.calls 0).inTable = true := by
   refine ⟨_, rfl, ?_⟩; decide
 
+/-- **Server-issued requests.** A request a server sends to its peer (`SendRequest`, `ListRoots`) is an entry in the
+    server's pending table; with every insert's delete deferred (the regenerated fact of `C08_server_inserts_deferred`),
+    for every schedule: once every issued request has returned — answered, ended by its caller's context or timer, or
+    because the request could not be written to the peer's stream — the table is empty. -/
+theorem C08_server_pending_released (ins : List SrvInsertSite) (sv : Server)
+    (hd : (srvFacts ins sv).deleteDeferred = true)
+    (evs : List Ev) (s : St) (hr : run (srvFacts ins sv) srvCfg (init srvCfg) evs = some s)
+    (hall : ∀ c, (s.calls c).issued = true → (s.calls c).returned ≠ none) : ∀ c, (s.calls c).inTable = false :=
+  C08_pending_empty (srvFacts ins sv) srvCfg hd evs s hr hall
+
+/-- Witness for a server-side delete that is deferred only after an early return: the request is registered, writing it
+    to the peer's stream fails (the stream is going away), the call returns its error — the entry stays for ever. -/
+theorem C08_server_pending_leak_witness :
+    ∃ s, run { Facts.allGood with deleteDeferred := false } srvCfg (init srvCfg)
+        [.issue 0, .connErr 0, .complete 0 .connErr] = some s ∧ (s.calls 0).returned = some .err ∧ (s.calls 0).inTable = true := by
+  refine ⟨_, rfl, ?_⟩; decide
+
 /-! ## C08: the resource ledger after Close -/
 
 /-- Component-wise, for any facts: after Close() has begun, in a quiescent state, the reader and the child are gone; the
@@ -462,6 +483,41 @@ theorem C08_ledger_zero_after_close (f : Facts) (cfg : Cfg)
   have hcl : s.closing = true := (all_reach f cfg evs s hr).1.2.1 hc
   obtain ⟨a, b, c, d, e⟩ := C08_ledger_partial f cfg evs s hr hcl hq
   exact ⟨c hb, a, b, (d hw).1, (d hw).2, e (Or.inl hg)⟩
+
+/-- **Close takes effect whatever the client's state.** With `closeAny` (Close() reaches `transport.close()` under no
+    condition but `transport != nil`), in every reachable state in which Close has not begun — in particular after a
+    failed handshake or while one is in flight, when the client's state is Disconnected but the transport is up — Close()
+    runs to completion: the closed flag is set, the pending channels are closed.  (`C08_ledger_zero_after_close` then
+    applies to what follows.) -/
+theorem C08_close_takes_effect (f : Facts) (cfg : Cfg) (ha : f.closeAny = true)
+    (evs : List Ev) (s : St) (hr : run f cfg (init cfg) evs = some s) (hc : s.closing = false) :
+    ∃ s', run f cfg s [.closeBegin, .closeEnd] = some s' ∧ s'.closed = true ∧ s'.closing = true := by
+  have hcd : s.closed = false := by
+    cases h : s.closed with
+    | false => rfl
+    | true => have := (all_reach f cfg evs s hr).1.2.1 h; simp [hc] at this
+  cases ht : cfg.t <;> simp [run, step, hc, ha, ht, hcd, Transport.shared]
+
+/-- Witness for a Close() guarded by the client's state (returns early when the state is Disconnected): the legacy SSE
+    handshake fails after the event stream is up (the initialize POST is answered by nothing, the caller's deadline
+    passes); Close() is not enabled at all, and nothing else can move: the reader (and its connection) stays for ever. -/
+theorem C08_close_skipped_witness :
+    ∃ s, run { Facts.allGood with closeAny := false } { t := .sse, connected := false } (init { t := .sse, connected := false })
+        [.issue 0, .ctxDone 0, .complete 0 .ctx] = some s ∧ (s.calls 0).returned = some .err ∧
+      step { Facts.allGood with closeAny := false } { t := .sse, connected := false } s .closeBegin = none ∧
+      step { Facts.allGood with closeAny := false } { t := .sse, connected := false } s .readerExit = none ∧
+      s.reader = true := by
+  refine ⟨_, rfl, ?_⟩; decide
+
+/-- … and for the Streamable client: Close() issued while the handshake is in flight (state Disconnected) does nothing,
+    the handshake then succeeds and its asynchronous starter opens the listening stream: it outlives the Close(). -/
+theorem C08_close_during_handshake_witness :
+    ∃ s, run { Facts.allGood with closeAny := false } { t := .streamJson, getSSE := true, connected := false }
+        (init { t := .streamJson, getSSE := true, connected := false })
+        [.issue 0, .headers 0 true, .deliver 0, .bodyEnd 0, .complete 0 .answer, .starterRun] = some s ∧
+      step { Facts.allGood with closeAny := false } { t := .streamJson, getSSE := true, connected := false } s .closeBegin = none ∧
+      s.stream = true := by
+  refine ⟨_, rfl, ?_⟩; decide
 
 /-- Witness for a body that is not closed (D18): a Streamable call with an SSE answer returns at the result; after Close,
     with everything quiescent, its response body is still held. -/
@@ -517,6 +573,17 @@ open Mcp.Gen.CallFacts in
 theorem C08_inserts_deferred : clInserts.isEmpty = false ∧ clInserts.all (·.deleteDeferred) = true := by decide
 
 open Mcp.Gen.CallFacts in
+/-- (a') The same on the servers: every function of the Streamable, legacy SSE and stdio servers that registers a
+    server-issued request (directly, or through `RegisterRequest`) defers the delete before any return can follow. -/
+theorem C08_server_inserts_deferred : ∀ sv : Server, (srvFacts srvInserts sv).deleteDeferred = true := by
+  intro sv; cases sv <;> decide
+
+open Mcp.Gen.CallFacts in
+/-- (d) `Client.Close` and `StdioClient.Close` reach `transport.close()` under no condition but `transport != nil`. -/
+theorem C08_close_unguarded : ∀ c : Client, clTables.closeUnguarded.any (· = c) = true := by
+  intro c; cases c <;> decide
+
+open Mcp.Gen.CallFacts in
 /-- (b) Every function that obtains an `*http.Response` closes its body on every path or hands it to a function that
     does (`send` → `handleSSEResponse`, `start` → `readSSE`). -/
 theorem C08_bodies_closed : ((clBodies.filter (·.obtains)).all (siteOk clTables)) = true := by decide
@@ -532,6 +599,19 @@ theorem C08_selects_current :
 
 -- non-vacuity: the good corner is good for every transport
 example : ∀ t : Transport, Facts.allGood.goodFor t = true := by intro t; cases t <;> decide
+
+-- non-vacuity of `C08_server_pending_released`: a request answered, one ended by its context, one whose write failed
+example : ∃ s, run (srvFacts [{ server := .streamable, fn := [], table := [], deleteDeferred := true }] .streamable) srvCfg (init srvCfg)
+      [.issue 0, .issue 1, .issue 2, .frame 0, .deliver 0, .complete 0 .answer, .ctxDone 1, .complete 1 .ctx, .connErr 2, .complete 2 .connErr] = some s ∧
+    (s.calls 0).returned = some .ok ∧ (s.calls 1).returned = some .err ∧ (s.calls 2).returned = some .err ∧
+    (s.calls 0).inTable = false ∧ (s.calls 1).inTable = false ∧ (s.calls 2).inTable = false := by
+  refine ⟨_, rfl, ?_⟩; decide
+
+-- non-vacuity of `C08_close_takes_effect`: Close() after a failed legacy SSE handshake (state Disconnected, reader alive)
+example : ∃ s, run Facts.allGood { t := .sse, connected := false } (init { t := .sse, connected := false })
+      [.issue 0, .ctxDone 0, .complete 0 .ctx, .closeBegin, .closeEnd, .readerExit] = some s ∧
+    s.closed = true ∧ s.reader = false ∧ (s.calls 0).inTable = false := by
+  refine ⟨_, rfl, ?_⟩; decide
 
 -- non-vacuity of `C08_returns`: reachable states with a waiting call and a cause that happened; one call got its answer
 example : ∃ s, run Facts.allGood { t := .sse } (init { t := .sse })
